@@ -184,7 +184,13 @@ func (p *Program) lookupType(s string) types.Type {
 	}
 	pk, ok := p.byName[s[:i]]
 	if !ok {
-		return nil
+		// common import aliases
+		if s[:i] == "proto" {
+			pk, ok = p.byName["v2rpc"]
+		}
+		if !ok {
+			return nil
+		}
 	}
 	obj := pk.Scope().Lookup(s[i+1:])
 	if obj == nil {
